@@ -106,3 +106,233 @@ def run_c02(ctx, spec, out):
     for cid, case in cases.items():
         queryfam.evaluate_case(v, case, impl.get(cid), model.get(cid), set())
     out.extra_cov["worlds"] = nworlds
+
+
+# ---------------------------------------------------------------------------------------------
+# C19: export followed by import reproduces the cache
+
+def run_c19(ctx, spec, out):
+    rng = random.Random("C19-%d" % ctx["seed"])
+    v = out.v
+    nworlds = 12 if ctx["tier"] == "quick" else 200
+    nq = 40
+    schema = ctx["schema"]
+    impl_lines, model_lines, cases = [], [], {}
+    n = 0
+    pairs = []
+    for _ in range(nworlds):
+        ds = c02_values(rng, gen.gen_dataset(rng, {"nbackends": [1, 2, 2, 3], "service_auth": ["loose", "strict"], "group_auth": ["loose", "strict"]}))
+        wbs, mbs = [], []
+        for b in ds["backends"]:
+            flavour, flags = worldgen.pick_flavour(rng)
+            wb = worldgen.full_backend(schema, b, flavour, flags, rng)
+            wbs.append(wb)
+            mbs.append(worldgen.model_backend(schema, wb, flags))
+        cfg = {"service_auth": ds["service_auth"], "group_auth": ds["group_auth"]}
+        n += 1
+        impl_lines.append({"op": "world", "id": n, "world": {"config": cfg, "backends": wbs}})
+        model_lines.append({"op": "sync", "id": n, "dataset": {"backends": mbs, "service_auth": ds["service_auth"], "group_auth": ds["group_auth"]}})
+        for wb in wbs:
+            n += 1
+            impl_lines.append({"op": "init", "id": n, "peer": wb["id"]})
+        gds = {"backends": [{"id": mb["id"], "name": mb["name"], "flags": mb["flags"], "tables": mb["tables"]} for mb in mbs]}
+        texts = []
+        for _ in range(nq):
+            r = rng.random()
+            opts = {"depth": [0, 1, 2], "sort": 0.4, "limit": 0.3, "offset": 0.2, "authuser": 0.2}
+            if r < 0.3:
+                texts.append(gen.gen_stats_query(rng, schema, gds, opts))
+            else:
+                texts.append(gen.gen_data_query(rng, schema, gds, opts))
+        first = []
+        for text in texts:
+            n += 1
+            q = {"op": "query", "id": n, "text": text, "optimize": True}
+            impl_lines.append(q)
+            model_lines.append(q)
+            cases[n] = {"text": text, "optimize": True, "dataset": {"world": wbs}, "has_header_row": queryfam.has_header_row(text), "dataset_hash": common.case_hash(wbs), "extra": {"instance": "exporting"}}
+            first.append(n)
+        n += 1
+        impl_lines.append({"op": "export_import", "id": n})
+        exp_id = n
+        for text, fid in zip(texts, first):
+            n += 1
+            q = {"op": "query", "id": n, "text": text, "optimize": True}
+            impl_lines.append(q)
+            model_lines.append(q)
+            cases[n] = {"text": text, "optimize": True, "dataset": {"world": wbs}, "has_header_row": queryfam.has_header_row(text), "dataset_hash": common.case_hash(wbs) + "i", "extra": {"instance": "importing"}}
+            pairs.append((fid, n, exp_id))
+    impl, model = run_lines(ctx, impl_lines, model_lines)
+    bad_exports = set()
+    for fid, iid, exp_id in pairs:
+        r = impl.get(exp_id) or {}
+        if (r.get("error") or r.get("crash")) and exp_id not in bad_exports:
+            bad_exports.add(exp_id)
+            v.violations.append(("property", {"text": "export_import", "dataset": None}, "export/import failed: %s" % str(r)[:500]))
+    for cid, case in cases.items():
+        queryfam.evaluate_case(v, case, impl.get(cid), model.get(cid), set())
+    # byte identity of the two instances' answers where the order is determined
+    same = 0
+    for fid, iid, exp_id in pairs:
+        a, b = impl.get(fid) or {}, impl.get(iid) or {}
+        if exp_id in bad_exports:
+            continue
+        if a.get("code") != b.get("code"):
+            v.violations.append(("property", cases[iid], "status differs between exporting (%s) and importing (%s) instance" % (a.get("code"), b.get("code"))))
+        elif a.get("body") == b.get("body"):
+            same += 1
+    out.extra_cov["worlds"] = nworlds
+    out.extra_cov["byte_identical_answers"] = same
+
+
+# ---------------------------------------------------------------------------------------------
+# histories (C13, C12, C03, C11): every step goes to the implementation and to the peer model
+
+T0 = 1700000000
+
+STATE_KEYS = ["status", "has_data", "idling", "error_count", "last_online_zero", "last_query_zero"]
+AGO_KEYS = ["last_online_ago", "last_update_ago", "last_full_ago", "last_query_ago"]
+
+
+def compare_state(v, case, step_no, what, impl_res, model_res):
+    """peer bookkeeping after a step: impl (VerifPeerState) vs model (Lmd.PeerSt)"""
+    if impl_res is None or model_res is None:
+        v.corr_broken.append((case, "step %d (%s): missing result impl=%s model=%s" % (step_no, what, str(impl_res)[:200], str(model_res)[:200])))
+        return False
+    if impl_res.get("crash"):
+        v.violations.append(("crash", case, "step %d (%s): the implementation crashed: %s" % (step_no, what, impl_res.get("stderr", "")[-400:])))
+        return False
+    si, sm = impl_res.get("state") or {}, model_res.get("state") or {}
+    diffs = []
+    for k in STATE_KEYS:
+        if si.get(k) != sm.get(k):
+            diffs.append("%s impl=%s model=%s" % (k, si.get(k), sm.get(k)))
+    for k in AGO_KEYS:
+        zero = {"last_online_ago": "last_online_zero", "last_query_ago": "last_query_zero"}.get(k)
+        if zero and si.get(zero):
+            continue
+        if abs(float(si.get(k, 0)) - float(sm.get(k, 0))) > 0.01:
+            diffs.append("%s impl=%s model=%s" % (k, si.get(k), sm.get(k)))
+    if (si.get("last_error", "") == "") != (sm.get("last_error", "") == ""):
+        diffs.append("last_error impl=%r model=%r" % (si.get("last_error"), sm.get("last_error")))
+    if set(si.get("flags") or []) != set(sm.get("flags") or []):
+        diffs.append("flags impl=%s model=%s" % (si.get("flags"), sm.get("flags")))
+    if impl_res.get("backend_queries") is not None and sm.get("backend_queries") is not None and impl_res["backend_queries"] != sm["backend_queries"]:
+        diffs.append("backend queries received impl=%s model=%s" % (impl_res["backend_queries"], sm["backend_queries"]))
+    if "ran" in impl_res and impl_res.get("ran") != model_res.get("ran"):
+        diffs.append("update ran impl=%s model=%s" % (impl_res.get("ran"), model_res.get("ran")))
+    if "err" in impl_res and (impl_res.get("err", "") == "") != (model_res.get("err", "") == ""):
+        diffs.append("error impl=%r model=%r" % (impl_res.get("err"), model_res.get("err")))
+    if diffs:
+        v.corr_broken.append((case, "step %d (%s): %s" % (step_no, what, "; ".join(diffs))))
+        return False
+    return True
+
+
+class History:
+    """builds the two line streams of one world history"""
+
+    def __init__(self, schema, start_id):
+        self.schema = schema
+        self.impl, self.model = [], []
+        self.n = start_id
+        self.checks = []      # (id, kind, step description)
+        self.queries = {}     # id -> case
+        self.steps = []
+
+    def both(self, line, observe=None):
+        self.n += 1
+        line = dict(line, id=self.n)
+        self.impl.append(line)
+        self.model.append(line)
+        self.steps.append({k: v for k, v in line.items() if k not in ("world",)})
+        if observe:
+            self.checks.append((self.n, observe, line.get("op")))
+        return self.n
+
+    def query(self, text, wbs, extra=None):
+        self.n += 1
+        q = {"op": "query", "id": self.n, "text": text, "optimize": True}
+        self.impl.append(q)
+        self.model.append(q)
+        self.steps.append({"op": "query", "text": text})
+        self.queries[self.n] = {"text": text, "optimize": True, "dataset": {"world": wbs}, "has_header_row": queryfam.has_header_row(text),
+                                "dataset_hash": common.case_hash([wbs, len(self.steps)]), "extra": extra}
+        return self.n
+
+
+def small_world(rng, schema, opts=None):
+    opts = opts or {}
+    ds = gen.gen_dataset(rng, {"nbackends": [1], "nhosts": opts.get("nhosts", [1, 2, 3]), "nsvcs": [0, 1, 2]})
+    b = ds["backends"][0]
+    flavour, flags = worldgen.pick_flavour(rng)
+    if opts.get("flavour"):
+        flavour, flags = opts["flavour"]
+    wb = worldgen.full_backend(schema, b, flavour, flags, rng, shuffle=False)
+    return wb, flags
+
+
+def run_c13(ctx, spec, out):
+    rng = random.Random("C13-%d" % ctx["seed"])
+    v = out.v
+    ntraces = 40 if ctx["tier"] == "quick" else 600
+    schema = ctx["schema"]
+    impl_lines, model_lines = [], []
+    hists = []
+    nid = 0
+    for _ in range(ntraces):
+        wb, flags = small_world(rng, schema)
+        nsrc = rng.choice([1, 1, 2, 3])
+        wb["sources"] = {1: ["self"], 2: rng.choice([["dead", "self"], ["self", "dead"]]), 3: rng.choice([["dead", "dead", "self"], ["self", "dead", "dead"], ["dead", "self", "dead"]])}[nsrc]
+        cfg = {"update_interval": rng.choice([5, 7, 10]), "stale_backend_timeout": rng.choice([10, 30, 60]), "idle_timeout": rng.choice([20, 120]),
+               "idle_interval": rng.choice([60, 300]), "max_parallel_peer_connections": 1, "backend_keepalive": False, "net_timeout": 5, "connect_timeout": 2}
+        h = History(schema, nid)
+        h.both({"op": "clock", "seconds": T0})
+        h.both({"op": "world", "world": {"config": cfg, "backends": [wb]}})
+        pid = wb["id"]
+        h.both({"op": "state", "peer": pid}, "state")
+        nev = rng.choice([4, 8, 12, 25])
+        mode = "ok"
+        if rng.random() < 0.3:
+            mode = rng.choice(["refuse", "garbage"])
+            h.both({"op": "mode", "backend": pid, "mode": mode})
+        h.both({"op": "init", "peer": pid}, "state")
+        for _ in range(nev):
+            r = rng.random()
+            if r < 0.35:
+                h.both({"op": "advance", "seconds": rng.choice([1, 3, 5, 7, 10, 15, 31, 61, 125, 400])})
+                h.both({"op": "tick", "peer": pid}, "state")
+            elif r < 0.5:
+                h.both({"op": "tick", "peer": pid}, "state")
+            elif r < 0.7:
+                mode = rng.choice(["ok", "ok", "refuse", "garbage", "error500", "closeearly", "badheader", "truncate"])
+                h.both({"op": "mode", "backend": pid, "mode": mode})
+            elif r < 0.9:
+                h.query("GET hosts\nColumns: name state peer_key\nOutputFormat: wrapped_json\n\n", [wb], {"why": "client query"})
+                h.both({"op": "state", "peer": pid}, "state")
+            else:
+                h.query("GET sites\nColumns: peer_key status\nOutputFormat: wrapped_json\n\n", [wb], {"why": "sites"})
+        hists.append((h, wb))
+        nid = h.n
+        impl_lines += h.impl
+        model_lines += h.model
+    impl, model = run_lines(ctx, impl_lines, model_lines)
+    for h, wb in hists:
+        case = {"text": json.dumps(h.steps)[:200], "dataset": None, "extra": {"history": h.steps, "world": wb.get("sources"), "lines": h.impl}}
+        ok = True
+        nmut = 0
+        for i, (cid, kind, what) in enumerate(h.checks):
+            if not ok:
+                break
+            ok = compare_state(v, case, i, what, impl.get(cid), model.get(cid))
+        if ok:
+            for cid, qcase in h.queries.items():
+                queryfam.evaluate_case(v, qcase, impl.get(cid), model.get(cid), set())
+        v.stats["evaluated"] += 1
+        hh = common.case_hash(h.steps)
+        if len(h.steps) >= 6 and hh not in v.distinct:
+            v.distinct.add(hh)
+            v.stats["nontrivial"] += 1
+        if len(v.samples) < 3:
+            v.samples.append({"history": h.steps[:14]})
+    out.extra_cov["traces"] = ntraces
